@@ -57,6 +57,10 @@ type GenConfig struct {
 	// fixed-width bulk data (arrays and vectors of floats, complex numbers, bytes).
 	BulkStreamPct int
 
+	// StructArrayPct: chance (percent) that the first protocol gets steps holding arrays (dynamic, sized
+	// and fixed) of a record made of fixed-width scalars of different sizes - the record has alignment
+	// padding in memory (C++ struct, NumPy aligned dtype) that the wire format does not have
+	StructArrayPct int
 	// ArgRefPct: chance (percent) that a generic argument is a reference to a non-generic named
 	// type (record, enum, alias) instead of the default mix; 0 keeps the default distribution.
 	ArgRefPct int
@@ -1034,6 +1038,9 @@ func GenPackage(t *rapid.T, cfg *GenConfig) *Package {
 	if cfg.BulkStreamPct > 0 && g.chance("bulkStream", cfg.BulkStreamPct) {
 		addBulkStream(root)
 	}
+	if cfg.StructArrayPct > 0 && !cfg.Excl["array-of-struct"] && g.chance("structArray", cfg.StructArrayPct) {
+		g.addStructArraySteps(root)
+	}
 	if cfg.TwiceGenericPct > 0 && g.chance("twiceGeneric", cfg.TwiceGenericPct) {
 		addTwiceInstantiated(root, g.chance("twiceFreshArgs", 70), g.chance("twiceViaAlias", 40), g.chance("twiceEnumArg", 40))
 	}
@@ -1118,6 +1125,58 @@ func addTwiceInstantiated(root *Package, freshArgs, viaAlias, enumB bool) {
 // fixed-width bulk data (the shapes that readers and writers copy with a single memcpy / buffer view):
 // dynamic and known-rank arrays, variable-length and fixed vectors of floats, complex numbers and bytes,
 // followed by a string so that every item ends with data read after the arrays.
+// addStructArraySteps: see GenConfig.StructArrayPct.
+func (g *gen) addStructArraySteps(root *Package) {
+	if root.Find("PadRec") != nil || root.Find("PadInner") != nil {
+		return
+	}
+	var proto *Def
+	for _, d := range root.Defs {
+		if d.Kind == DProtocol {
+			proto = d
+			break
+		}
+	}
+	if proto == nil {
+		return
+	}
+	for _, f := range proto.Fields {
+		if strings.HasPrefix(f.Name, "pad") {
+			return
+		}
+	}
+	prims := []string{"uint8", "float64", "int8", "float32", "bool", "complexfloat32", "complexfloat64", "uint8", "float64"}
+	inner := &Def{Kind: DRecord, Name: "PadInner", Fields: []Field{{Name: "flag", Type: Prim(prims[g.intn("padInnerA", len(prims))])}, {Name: "level", Type: Prim(prims[g.intn("padInnerB", len(prims))])}}}
+	rec := &Def{Kind: DRecord, Name: "PadRec"}
+	for i, n := 0, 2+g.intn("padFields", 3); i < n; i++ {
+		var t *Type = Prim(prims[g.intn("padPrim", len(prims))])
+		switch g.intn("padShape", 8) {
+		case 0:
+			t = Ref(root.Namespace, "PadInner")
+		case 1:
+			t = FixedVector(t, uint64(1+g.intn("padVecLen", 3)))
+		}
+		rec.Fields = append(rec.Fields, Field{Name: fmt.Sprintf("p%d", i), Type: t})
+	}
+	var defs []*Def
+	inserted := false
+	for _, d := range root.Defs {
+		if d.Kind == DProtocol && !inserted {
+			defs = append(defs, inner, rec)
+			inserted = true
+		}
+		defs = append(defs, d)
+	}
+	root.Defs = defs
+	two, three := uint64(2), uint64(3)
+	ref := func() *Type { return Ref(root.Namespace, "PadRec") }
+	proto.Fields = append(proto.Fields,
+		Field{Name: "padArr", Type: &Type{Kind: KArray, Elem: ref(), HasDims: true, Dims: []Dim{{}}}},
+		Field{Name: "padGrid", Type: &Type{Kind: KArray, Elem: ref(), HasDims: true, Dims: []Dim{{Len: &two}, {Len: &three}}}},
+		Field{Name: "padItems", Type: Stream(&Type{Kind: KArray, Elem: ref(), HasDims: true, Dims: []Dim{{Name: "r"}, {Name: "c"}}})},
+		Field{Name: "padDyn", Type: DynArray(ref())})
+}
+
 func addBulkStream(root *Package) {
 	if root.Find("BulkRec") != nil {
 		return
